@@ -77,17 +77,18 @@ Proof.
   eapply prune_nested_goodx; eauto.
 Qed.
 
-(* FieldUpdater.Merge with any writable fields, update mask and reset mask *)
-Lemma upd_merge_w_wb n w um rs : wb_merge (upd_merge_w n w um rs).
+(* FieldUpdater.Merge when the message it is given is owned by the operation, whoever its owner is *)
+Lemma upd_merge_w_good_any lo n w um rs s dst src o :
+  heap_ok lo s -> own lo (nxt s) Lib dst -> own lo (nxt s) o src -> good lo s (upd_merge_w n w um rs s dst src).
 Proof.
-  intros lo s dst src Hs Hd Hsrc. unfold upd_merge_w.
+  intros Hs Hd Hsrc. unfold upd_merge_w.
   destruct (opt_leaf w); [apply good_refl; auto|].
   set (s1 := match w with Some wm => keep_nested n s src wm | None => s end).
   assert (G1 : good lo s s1).
   { subst s1. destruct w as [wm|]; [eapply keep_nested_good; eauto | apply good_refl; auto]. }
   assert (N1 : nxt s <= nxt s1) by apply G1.
   assert (Hd1 : own lo (nxt s1) Lib dst) by (eapply own_mono; eauto).
-  assert (Hs1 : own lo (nxt s1) Caller src) by (eapply own_mono; eauto).
+  assert (Hs1 : own lo (nxt s1) o src) by (eapply own_mono; eauto).
   assert (Ed : fst dst = Lib) by apply Hd.
   destruct um as [m|].
   - destruct (nm_leaf m); [exact G1|].
@@ -115,4 +116,28 @@ Proof.
     assert (Hd3 : own lo (nxt s3) Lib dst) by (eapply own_mono; [eauto | apply G3]).
     eapply good_trans; [exact G1|]. eapply good_trans; [exact G2|]. eapply good_trans; [exact G3|].
     apply reset_step_good; [apply (good_ok _ _ _ G3) | auto].
+Qed.
+
+(* FieldUpdater.Merge with any writable fields, update mask and reset mask is a well-behaved merge step *)
+Lemma upd_merge_w_wb n w um rs : wb_merge (upd_merge_w n w um rs).
+Proof. intros lo s dst src Hs Hd Hsrc. eapply upd_merge_w_good_any; eauto. Qed.
+
+(* writing a CLONE of a stored message to another resource is a well-behaved model-level operation *)
+Lemma wb_read_write_stored n k w um rs : wb_read (r_write_stored n k w um rs).
+Proof.
+  intros s ts Hs Hts. unfold r_write_stored. set (lo := nxt s).
+  destruct (nth_error ts k) as [t|] eqn:Ek.
+  2:{ cbn [fst snd]. split; [exact Hs|]. split; [split; [lia | auto] | constructor]. }
+  destruct (clone_good lo Lib n s t Hs) as [G1 Q1].
+  destruct (clone n Lib s t) as [s1 c] eqn:E1. cbn [fst snd] in G1, Q1.
+  destruct (good_alloc lo s1 Lib empty_node (good_ok _ _ _ G1) (own_empty _ _ _)) as [G2 Q2].
+  destruct (halloc s1 Lib empty_node) as [s2 dst] eqn:E2. cbn [fst snd] in G2, Q2.
+  assert (G3 : good lo s2 (upd_merge_w n w um rs s2 dst c)).
+  { eapply upd_merge_w_good_any; [apply (good_ok _ _ _ G2) | exact Q2 |].
+    eapply own_mono; [exact Q1 | apply G2]. }
+  cbn [fst snd].
+  assert (G : good lo s (upd_merge_w n w um rs s2 dst c)).
+  { eapply good_trans; [exact G1|]. eapply good_trans; [exact G2 | exact G3]. }
+  split; [apply heap_ok_rebase with lo; apply G|]. split; [apply good_frame; exact G|].
+  constructor; [|constructor]. destruct Q2 as (A & B & _). split; auto. destruct G3 as (_ & ? & _). lia.
 Qed.
